@@ -68,6 +68,16 @@ def eval_term(tm, leaf: t.Callable[[tuple], t.Any]):
         return tuple(eval_term(x, leaf) for x in tm[1])
     if tag == "set":
         return frozenset(eval_term(x, leaf) for x in tm[1])
+    if tag == "fstr":
+        if len(tm) < 2:
+            raise Unsupported("opaque f-string")
+        return "".join(x[1] if x[0] == "const" else str(eval_term(x[1], leaf)) for x in tm[1])
+    if tag == "call" and tm[1][0] == "attr" and tm[1][2] in PURE_METHODS and not tm[3]:
+        try:
+            return leaf(tm)
+        except AnalysisError:
+            obj = eval_term(tm[1][1], leaf)
+            return pure_method(obj, tm[1][2], [eval_term(a, leaf) for a in tm[2]])
     if tag == "item":
         try:
             return leaf(tm)
@@ -83,6 +93,22 @@ def eval_term(tm, leaf: t.Callable[[tuple], t.Any]):
     if tag == "call" and tm[1] == ("ext", "bool") and len(tm[2]) == 1:
         return bool(eval_term(tm[2][0], leaf))
     return leaf(tm)
+
+
+PURE_METHODS = {"find", "rfind", "index", "decode", "encode", "partition", "rpartition", "split", "rsplit", "startswith",
+                "endswith", "strip", "lstrip", "rstrip", "lower", "upper", "count", "join", "hex"}
+
+
+def pure_method(obj, name, args):
+    """library semantics of pure str/bytes methods occurring in extracted formulas"""
+    if not isinstance(obj, (bytes, bytearray, str)):
+        raise Unsupported(f"method .{name} on {type(obj).__name__} is not modelled")
+    if isinstance(obj, bytearray):
+        obj = bytes(obj)
+    res = getattr(obj, name)(*args)
+    if isinstance(res, list):
+        return tuple(res)
+    return res
 
 
 def path_matches(path, leaf) -> bool:
